@@ -86,6 +86,39 @@ func runC03(w *W) {
 		if l.GetJieQi() != want || l.GetJie() != wantJie || l.GetQi() != wantQi {
 			w.Viol("C03:day-term:"+d.Ymd, fmt.Sprintf("%s: GetJieQi/GetJie/GetQi = %q/%q/%q, table says %q/%q/%q", d.Ymd, l.GetJieQi(), l.GetJie(), l.GetQi(), want, wantJie, wantQi), d.Ymd)
 		}
+		// prev/next lookups at noon of every day (mid-interval queries; the breakpoints are covered per table entry below)
+		{
+			ln := d.At(12, 0, 0).GetLunar()
+			tq := termsOf(ln)
+			q := int64(d.J)*86400 + 43200
+			best := [4]int{-1, -1, -1, -1} // prev any, next any, prev jie, next jie
+			for i, x := range tq {
+				after := x.inst() > q
+				for k := 0; k < 4; k++ {
+					if k >= 2 && x.Idx%2 != 0 {
+						continue
+					}
+					fwd := k%2 == 1
+					if fwd && after && (best[k] < 0 || x.inst() < tq[best[k]].inst()) {
+						best[k] = i
+					}
+					if !fwd && !after && (best[k] < 0 || x.inst() > tq[best[k]].inst()) {
+						best[k] = i
+					}
+				}
+			}
+			got := []*calendar.JieQi{ln.GetPrevJieQi(), ln.GetNextJieQi(), ln.GetPrevJie(), ln.GetNextJie()}
+			for k, g := range got {
+				wantS := "nil"
+				if best[k] >= 0 {
+					wantS = termName(tq[best[k]].Key) + "@" + tq[best[k]].S.ToYmdHms()
+				}
+				w.R.Transitions++
+				if jqStr(g) != wantS {
+					w.Viol(fmt.Sprintf("C03:lookup:noon:%d:%s", k, d.Ymd), fmt.Sprintf("lookup %d (0 prev, 1 next, 2 prev Jie, 3 next Jie) at %s 12:00:00 = %s, table says %s", k, d.Ymd, jqStr(g), wantS), d.Ymd)
+				}
+			}
+		}
 		cj, cjie, cqi := l.GetCurrentJieQi(), l.GetCurrentJie(), l.GetCurrentQi()
 		if (cj != nil) != (want != "") || (cjie != nil) != (wantJie != "") || (cqi != nil) != (wantQi != "") {
 			w.Viol("C03:current-term:"+d.Ymd, d.Ymd+": GetCurrent* presence disagrees with the table", d.Ymd)
